@@ -20,6 +20,35 @@ const OFFSET_MASK: usize = 0b111111;
 
 //-----------------------------------------------------------------------------
 
+/// Verification hooks: a bounds monitor for the unchecked accesses on the query paths.
+///
+/// Only compiled with `--cfg simple_sds_verif`. Each guarded site calls [`verif::check_index`]
+/// before the unchecked access; an out-of-bounds index becomes a panic with the marker `VERIF-OOB`.
+#[cfg(simple_sds_verif)]
+pub mod verif {
+    use std::cell::Cell;
+
+    thread_local! {
+        static BOUNDS_CHECKS: Cell<u64> = const { Cell::new(0) };
+    }
+
+    /// Panics with the marker `VERIF-OOB` if `index >= len`.
+    #[inline]
+    pub fn check_index(site: &'static str, index: usize, len: usize) {
+        BOUNDS_CHECKS.with(|c| c.set(c.get().wrapping_add(1)));
+        if index >= len {
+            panic!("VERIF-OOB site={} index={} len={}", site, index, len);
+        }
+    }
+
+    /// Number of bounds checks executed by the current thread.
+    pub fn bounds_checks() -> u64 {
+        BOUNDS_CHECKS.with(|c| c.get())
+    }
+}
+
+//-----------------------------------------------------------------------------
+
 const LOW_SET: [u64; 65] = [
     0x0000_0000_0000_0000,
 
@@ -263,6 +292,8 @@ pub fn low_set(n: usize) -> u64 {
 /// Behavior is undefined if `n > 64`.
 #[inline]
 pub unsafe fn low_set_unchecked(n: usize) -> u64 {
+    #[cfg(simple_sds_verif)]
+    verif::check_index("bits::low_set_unchecked", n, LOW_SET.len());
     *LOW_SET.get_unchecked(n)
 }
 
@@ -291,6 +322,8 @@ pub fn high_set(n: usize) -> u64 {
 /// Behavior is undefined if `n > 64`.
 #[inline]
 pub unsafe fn high_set_unchecked(n: usize) -> u64 {
+    #[cfg(simple_sds_verif)]
+    verif::check_index("bits::high_set_unchecked", n, HIGH_SET.len());
     *HIGH_SET.get_unchecked(n)
 }
 
@@ -353,6 +386,9 @@ pub fn reverse_low(n: u64, bits: usize) -> u64 {
 /// Behavior is undefined if `rank >= n.count_ones()`.
 #[inline]
 pub unsafe fn select(n: u64, rank: usize) -> usize {
+    #[cfg(simple_sds_verif)]
+    verif::check_index("bits::select", rank, n.count_ones() as usize);
+
     // The first argument to `__pdep_u64` has a single 1 at bit offset `rank`. The
     // number `n` we are interested in is used as a mask. PDEP takes low-order bits
     // from the value and places them to the offsets specified by the mask. In
@@ -376,12 +412,16 @@ pub unsafe fn select(n: u64, rank: usize) -> usize {
 
         // We add `128 - rank - 1` to each byte and mask out all bits except `128`. We get
         // the bit offset for the byte containing the answer by counting trailing zeros.
+        #[cfg(simple_sds_verif)]
+        verif::check_index("bits::select/_PS_OVERFLOW", rank + 1, _PS_OVERFLOW.len());
         let mask = (cumulative + *_PS_OVERFLOW.get_unchecked(rank + 1)) & 0x8080_8080_8080_8080;
         let offset = ((mask.trailing_zeros() >> 3) << 3) as usize;
 
         // Subtract the number of set bits in the previous bytes from the rank.
         let relative_rank = rank - (((cumulative << 8) >> offset) as usize & 0xFF);
 
+        #[cfg(simple_sds_verif)]
+        verif::check_index("bits::select/_SELECT_IN_BYTE", (relative_rank << 8) + ((n >> offset) as usize & 0xFF), _SELECT_IN_BYTE.len());
         offset + (*_SELECT_IN_BYTE.get_unchecked((relative_rank << 8) + ((n >> offset) as usize & 0xFF)) as usize)
     }
 }
